@@ -8,6 +8,22 @@ def main():
     ap.add_argument("--replay", default=None)
     a = ap.parse_args()
     seed = int(os.environ.get("VERIF_SEED", "0"))
+    # watchdog: a check that does not finish within its time budget is UNDECIDED (exit 2) - never a hang, never a violation
+    import threading, multiprocessing
+    limit = float(os.environ.get("VERIF_WALL_LIMIT_S", "3000" if a.tier == "quick" else "36000"))
+
+    def _expired():
+        print("UNDECIDED property=%s: wall-clock budget of %d s exceeded (checker stopped by its watchdog)" % (a.pid, limit))
+        sys.stdout.flush()
+        for c in multiprocessing.active_children():
+            try:
+                c.terminate()
+            except Exception:
+                pass
+        os._exit(2)
+    wd = threading.Timer(limit, _expired)
+    wd.daemon = True
+    wd.start()
     try:
         mod = importlib.import_module("props." + a.pid)
         if a.replay:
